@@ -170,8 +170,14 @@ def pass_case(chk, rng, i=0):
 def _pass_history(chk, rng, rp, ip, r, plug):
     ok = True
     # histories: the same pass object solved, its gap edited, solved again (twice)
+    from common import look_at
+    _ = (ip.equivalent_rectangle, ip.width, ip.height)      # a derived value read - and the profile displayed - before the first solve
+    look_at(ip, html=False)
     for step, factor in enumerate((1.0, 0.7, 1.4)):
         rp.gap = float(rp.gap) * factor
+        if step:
+            for obj in (rp, rp.in_profile, rp.out_profile, rp.roll):      # displayed between the solves
+                look_at(obj, html=False)
         rp.solve(ip)
         d, s, e = rp.draught, rp.spread, rp.elongation
         data = {'kind': 'pass', 'r': r, 'history': f"solve number {step + 1} of the same pass object (gap {float(rp.gap):.6g})"
